@@ -27,6 +27,45 @@ REGISTERED = (3, 5, 6, 7, 8, 11)      # struct, enum, flags, object, interface, 
 ENUM = 5
 
 
+CMPH_SOURCES = ['bdz.c', 'bdz_ph.c', 'bmz8.c', 'bmz.c', 'brz.c', 'buffer_entry.c', 'buffer_manager.c', 'chd.c',
+                'chd_ph.c', 'chm.c', 'cmph.c', 'cmph_structs.c', 'compressed_rank.c', 'compressed_seq.c',
+                'fch_buckets.c', 'fch.c', 'graph.c', 'hash.c', 'jenkins_hash.c', 'miller_rabin.c', 'select.c',
+                'vqueue.c', 'vstack.c']          # girepository/cmph/meson.build
+CMPH_RUNS = [(1, 1), (2, 1), (3, 2), (4, 3), (17, 4), (300, 5), (301, 6), (1000, 7), (4096, 8)]     # (names, seed)
+
+
+def cmph_contract_start(work):
+    """Native-only: compile harness/c/h_c14_cmph.c (real gthash.c) with the repository's cmph
+    sources.  Returns the running compiler process; see cmph_contract_finish."""
+    import subprocess
+    from vlib.llsym import build as lb
+    r = lb.repo()
+    cm = os.path.join(r, 'girepository', 'cmph')
+    exe = os.path.join(work, 'cmph_contract')
+    cmd = ['gcc', '-O0', '-w', '-std=gnu99', '-I', lb.SHIM, '-I', work, '-I', os.path.join(r, 'girepository'), '-I', r,
+           '-I', cm, '-DGI_COMPILATION', os.path.join(lb.HARNESS_C, 'h_c14_cmph.c')] + \
+        [os.path.join(cm, f) for f in CMPH_SOURCES] + ['-lm', '-o', exe]
+    return subprocess.Popen(cmd, stdout=subprocess.PIPE, stderr=subprocess.STDOUT, text=True), exe
+
+
+def cmph_contract_finish(proc, exe):
+    """-> (ok, text).  The perfect-hash contract assumed of cmph_search_packed, checked on the real
+    code: every packed name found at its own index, values pairwise distinct and < n, absent keys
+    mapped to an index < n."""
+    import subprocess
+    out = proc.communicate()[0]
+    if proc.returncode != 0:
+        return False, 'gthash.c + cmph do not build natively: ' + out[-600:]
+    lines = []
+    for n, seed in CMPH_RUNS:
+        p = subprocess.run([exe, str(n), str(seed)], stdout=subprocess.PIPE, stderr=subprocess.STDOUT, text=True, timeout=120)
+        last = (p.stdout.strip().split('\n') or [''])[-1]
+        if p.returncode != 0 or not last.startswith('OK'):
+            return False, 'n=%d seed=%d: %s (exit %d)' % (n, seed, last[:200], p.returncode)
+        lines.append(last)
+    return True, '; '.join(lines)
+
+
 def build():
     from vlib.llsym import build as lb, slice as sl
 
@@ -49,9 +88,13 @@ def _put(d, pre, base, text):
         d['%s[%d]' % (pre, base + i)] = c
 
 
-def v_name(names, probe, secvar, perm=None, other=None, dirpad=0):
+def v_name(names, probe, secvar, perm=None, other=None, dirpad=0, nonlocal_names=(), after=(0, 0)):
     d = _base(0)
-    d.update({'n': len(names) - 1, 'secvar': secvar, 'dirpad': dirpad, 'plen': len(probe)})
+    d.update({'n': len(names) - 1, 'secvar': secvar, 'dirpad': dirpad, 'plen': len(probe),
+              'n_nonlocal': len(nonlocal_names)})
+    for i, s in enumerate(nonlocal_names):
+        d['xlen[%d]' % i] = len(s)
+        _put(d, 'x', i * 8, s)
     _put(d, 'p', 0, probe)
     for i, s in enumerate(names):
         d['len[%d]' % i] = len(s)
@@ -59,6 +102,7 @@ def v_name(names, probe, secvar, perm=None, other=None, dirpad=0):
     if secvar >= 2:
         for i, h in enumerate(perm or range(len(names))):
             d['perm[%d]' % i] = h
+        d['after_table[0]'], d['after_table[1]'] = after
         if other is None or other >= len(names):
             d['h_other_in_range'] = 0
             d['h_other'] = 0xffffffff if other is None else other
@@ -123,6 +167,13 @@ def validation_cases():
     add('by name: empty name and empty probe', v_name(['', 'a'], '', 2, perm=[1, 0]))
     add('by name: empty probe absent', v_name(['q'], '', 0))
     add('by name: high bytes', v_name(['\xff\x01', '\xff\x02'], '\xff\x02', 3, perm=[0, 1]))
+    for secvar in (0, 2):
+        add('by name (%d): name of a non-local entry only' % secvar,
+            v_name(['a', 'b'], 'Ob', secvar, perm=[1, 0], other=2, nonlocal_names=['Ob'], after=(2, 2)))
+        add('by name (%d): local name that a non-local entry also has' % secvar,
+            v_name(['Ob', 'b'], 'Ob', secvar, perm=[0, 1], nonlocal_names=['x', 'Ob']))
+    add('by name: absent key hashing just past the local count', v_name(['k'], 'z', 3, perm=[0], other=1,
+                                                                          nonlocal_names=['z', 'z'], after=(1, 2)))
     add('by gtype name: first of two equal', v_blob(1, [(3, 'Ab'), (7, 'Ab'), (5, 'Cd')], 'Ab'))
     add('by gtype name: function blob is skipped', v_blob(1, [(1, 'Ab'), (8, 'Ab')], 'Ab'))
     add('by gtype name: blob without gtype name', v_blob(1, [(3, None), (11, 'X')], 'X'))
@@ -154,15 +205,21 @@ def partitions(tier):
     strs = 'strings of 0..%d bytes, any non-NUL byte values' % ms
     for n in range(3):
         for secvar in range(4):
-            for l0 in range(ms + 1):
-                parts.append(Part('g_typelib_get_dir_entry_by_name',
-                                  dict(_base(0, ms), n=n, secvar=secvar, **{'len[0]': l0}),
+            for nx, l0 in [(0, l) for l in range(ms + 1)] + [(x, None) for x in range(1, (1 if tier == 'quick' else 2) + 1)]:
+                xs = ms - nx              # shorter strings with more entries: 1.5 M paths took 16 minutes otherwise
+                fixed = dict(_base(0, xs), n=n, secvar=secvar, n_nonlocal=nx)
+                if l0 is not None:
+                    fixed['len[0]'] = l0
+                parts.append(Part('g_typelib_get_dir_entry_by_name' if nx == 0 else
+                                  'g_typelib_get_dir_entry_by_name with non-local directory entries', fixed,
                                   '1..3 local entries with pairwise distinct names (%s), probe likewise; header without '
                                   'section table / table without directory index / index first / index after an unknown '
                                   'section; directory at 2 offsets; hashed branch: cmph_search_packed uninterpreted - any '
                                   'injective assignment of values < n to the names, any u32 for other keys, lookaside table as '
-                                  'the builder packs it: probe == name_i => entry i, else NULL; every read inside the %d-byte image'
-                                  % (strs, 320)))
+                                  'the builder packs it, arbitrary bytes after it: probe == name_i => entry i, else NULL; every read '
+                                  'inside the 352-byte image' % strs + ('' if nx == 0 else
+                                  '; here n_entries = n_local_entries + %d non-local entr%s with arbitrary names (all strings 0..%d '
+                                  'bytes): a probe equal only to a non-local name => NULL' % (nx, 'y' if nx == 1 else 'ies', xs))))
     for mode, item, what in ((1, 'g_typelib_get_dir_entry_by_gtype_name', 'GType name'),
                              (2, 'g_typelib_get_dir_entry_by_error_domain', 'error domain')):
         for n in range(3):
@@ -191,12 +248,13 @@ def describe(inp):
     n = inp.get('n', 0) + 1
     if m == 0:
         names = [_txt(inp, 's', i * 8, inp.get('len[%d]' % i, 0)) for i in range(n)]
+        xs = [_txt(inp, 'x', i * 8, inp.get('xlen[%d]' % i, 0)) for i in range(inp.get('n_nonlocal', 0))]
         how = ['no section table', 'section table without index', 'hashed', 'hashed (index second)'][inp.get('secvar', 0)]
         extra = ''
         if inp.get('secvar', 0) >= 2:
             other = inp.get('h_other_small') if inp.get('h_other_in_range') else inp.get('h_other')
             extra = ' h(names)=%s h(other)=%s' % ([inp.get('perm[%d]' % i) for i in range(n)], other)
-        return 'by_name(%s) in names %s, %s%s' % (probe, names, how, extra)
+        return 'by_name(%s) in local names %s%s, %s%s' % (probe, names, ', non-local %s' % xs if xs else '', how, extra)
     if m in (1, 2):
         ents = [(inp.get('type[%d]' % i), _txt(inp, 's', i * 8, inp.get('len[%d]' % i, 0)) if inp.get('has[%d]' % i) else None)
                 for i in range(n)]
@@ -213,6 +271,8 @@ def run(report, tier, seed, only=None):
     report.encode('girepository/gitypelib.c', *[s for s in SLICE_TYPELIB if ':' not in s])
     report.encode('girepository/gthash.c', *SLICE_HASH)
     report.assume(
+        'native side check of that contract on every run: the real gthash.c builder + girepository/cmph pack generated name '
+        'sets (1..4096 names) and every name must be found at its index, hash values distinct and < n, absent keys < n',
         'cmph_search_packed is an uninterpreted function constrained only by the perfect-hash contract: pairwise distinct '
         'values < n on the n entry names, an arbitrary u32 on any other key; the lookaside table is what '
         '_gi_typelib_hash_builder_pack writes (table[h(name_i)] = i); BDZ construction/evaluation (cmph/) is not claimed',
@@ -229,6 +289,7 @@ def run(report, tier, seed, only=None):
     except (lb.BuildError, sl.SliceError) as e:
         report.add(Item('build', runner.ENGINE, ERROR, detail='%s: %s' % (type(e).__name__, str(e)[-1500:])))
         return
+    cmph_proc = cmph_contract_start(built.work)          # compiles while the rest runs
     cases, expect = validation_cases()
     agree, problems, violated = runner.validate_concrete(built, cases, expect, memory_failures=True)
     if violated:
@@ -240,6 +301,7 @@ def run(report, tier, seed, only=None):
                                           'mode (C models) on every output; expected values from a reference in checks/c14.py',
                               'cases': [n for n, _ in cases]})
     if problems:
+        cmph_proc[0].kill()
         report.add(Item('translator-validation', runner.ENGINE, ERROR, bounds='%d concrete cases' % len(cases),
                         detail='; '.join(problems)[:1400]))
         return
@@ -248,6 +310,12 @@ def run(report, tier, seed, only=None):
         parts = [p for p in parts if only in p.item]
     runner.run_parts(report, 'C14', built, parts, tier, seed, BUDGET[tier] - (time.time() - t0),
                      describe=describe, memory_failures=True)
+    ok, text = cmph_contract_finish(*cmph_proc)
+    report.validation['perfect_hash_contract_native'] = text
+    if not ok:
+        report.add(Item('perfect-hash contract does not hold natively', runner.ENGINE, ERROR,
+                        bounds='real gthash.c + girepository/cmph, generated name sets of %s names'
+                               % ', '.join(str(n) for n, _ in CMPH_RUNS), detail=text))
 
 
 def replay(payload):
